@@ -1194,7 +1194,10 @@ class Interp:
                 return b_or(*[self.compare(ast.Eq(), item, k) for k in container])
             from .strings import SStr as _S
             if isinstance(item, _S):
-                item = item.concrete()
+                c = item.concrete_or_self()
+                if isinstance(c, str):
+                    return c in container
+                return b_or(*[_S.compare(self, "==", item, k) for k in container if isinstance(k, str)])
             return self.hashable(item) in container
         if isinstance(container, (list, tuple, set, frozenset)):
             items = list(container)
